@@ -209,6 +209,29 @@ namespace {
       }
       invalid += invalid2;
     }
+    // third protocol: a reader WINDOW that starts behind the first records (2, and far beyond the end): the records in front of
+    // the window are parsed by has_next_event() / the configuration step, not by load_next_event(); a malformed one among them
+    // has to surface as an error there as well
+    for (int start : {2, 1000}) {
+      try {
+        event_reader::config_type cfg3 = cfg;
+        cfg3.start_event               = start;
+        event_reader rd3(cfg3, 0);
+        long n3 = 0;
+        while (rd3.has_next_event()) {
+          event ev;
+          rd3.load_next_event(ev);
+          if (!ev.is_valid()) invalid++;
+          for (const auto & p : ev.get_particles())
+            if (!finite_particle(p)) nonfinite++;
+          if (++n3 >= 200000) {
+            outcome = "runaway";
+            break;
+          }
+        }
+      } catch (std::exception &) {
+      }
+    }
     std::ostringstream o;
     o << "\"outcome\":\"" << outcome << "\",\"nev\":" << nev << ",\"npart\":" << npart << ",\"invalid\":" << invalid
       << ",\"nonfinite\":" << nonfinite << ",\"post_err\":" << post_err << ",\"what\":\"" << jesc(what) << "\"";
